@@ -123,27 +123,35 @@ def impl_step(pp, torch, filt_name, c, kind='nls', model=None, obj=None, warm=Tr
     two-call history on one object: a filter that keeps anything from an earlier call shows up here."""
     T = lambda v: torch.tensor(v, dtype=torch.float64)
     model = model if model is not None else build_system(pp, torch, c['S'], kind)
-    args = (T(c['x']), T(c['y']), T(c['u']), T(c['P']), T(c['Q']), T(c['R']))
+    xa, ya, ua, Pa, Qa, Ra = T(c['x']), T(c['y']), T(c['u']), T(c['P']), T(c['Q']), T(c['R'])
+    # how the noise covariances reach the filter (documented: constructor defaults, each overridable per call):
+    # 0 both at the call, 1 both as constructor defaults, 2 Q default + R at the call, 3 R default + Q at the call;
+    # whatever is passed at the call must win over a (different) constructor default
+    mode = (int(round(abs(c['x'][0]) * 1e6)) + len(c['y'])) % 4 if obj is None else 0
+    eyeQ, eyeR = torch.eye(Qa.shape[-1], dtype=Qa.dtype), torch.eye(Ra.shape[-1], dtype=Ra.dtype)
+    dQ, dR = 3.0 * Qa + eyeQ, 0.5 * Ra + eyeR                      # decoy defaults
+    ctor = {0: dict(Q=dQ, R=dR), 1: dict(Q=Qa, R=Ra), 2: dict(Q=Qa, R=dR), 3: dict(Q=dQ, R=Ra)}[mode]
+    call = {0: dict(Q=Qa, R=Ra), 1: dict(), 2: dict(R=Ra), 3: dict(Q=Qa)}[mode]
     if filt_name == 'ekf':
-        f = obj if obj is not None else pp.module.EKF(model)
+        f = obj if obj is not None else pp.module.EKF(model, **ctor)
         if obj is None and warm:
             try:
-                f(T(c['x']) + 1.0, T(c['y']) - 0.5, T(c['u']), T(c['P']) * 2.0, T(c['Q']), T(c['R']))
+                f(xa + 1.0, ya - 0.5, ua, Pa * 2.0, **call)
             except Exception:   # noqa  (only the judged call matters)
                 pass
-        x, P = f(*args)
+        x, P = f(xa, ya, ua, Pa, **call)
     else:
-        f = obj if obj is not None else pp.module.UKF(model)
+        f = obj if obj is not None else pp.module.UKF(model, **ctor)
         if obj is None and warm:
             k0 = c.get('k')
             kw = (3.0 - len(c['x'])) if k0 is not None else 1.25      # a different, admissible k (> -n)
             if k0 is not None and abs(kw - k0) < 1e-9:
                 kw = k0 + 0.75
             try:
-                f(T(c['x']) + 1.0, T(c['y']) - 0.5, T(c['u']), T(c['P']) * 2.0, T(c['Q']), T(c['R']), k=kw)
+                f(xa + 1.0, ya - 0.5, ua, Pa * 2.0, k=kw, **call)
             except Exception:   # noqa
                 pass
-        x, P = f(*args, k=c.get('k'))
+        x, P = f(xa, ya, ua, Pa, k=c.get('k'), **call)
     return [float(v) for v in x.tolist()], [[float(v) for v in row] for row in P.tolist()]
 
 
@@ -827,14 +835,22 @@ def run(ctx):
     # ---- PF: recorded draws against the model
     for t in range(ctx.scale(40, 300)):
         n, m, p = rng.randint(1, 3), rng.randint(1, 3), rng.randint(1, 2)
-        c = gen_case(rng, n, m, p, nonlinear=(t % 3 == 2), scales=[10.0 ** rng.uniform(-2, 2) for _ in range(3)])
+        far = (t % 5 == 4)
+        if far:
+            # a state far from the origin compared with its spread (world coordinates): |x| / sigma up to 1e9
+            c = gen_case(rng, n, m, p, nonlinear=False, scales=[10.0 ** rng.uniform(-8, -4), 10.0 ** rng.uniform(-6, -2), 10.0 ** rng.uniform(-8, -4)])
+            off = 10.0 ** rng.uniform(3, 6.6)
+            c['x'] = [float(v + off * rng.choice([1, -1])) for v in c['x']]
+            ctx.count('pf-far-from-origin')
+        else:
+            c = gen_case(rng, n, m, p, nonlinear=(t % 3 == 2), scales=[10.0 ** rng.uniform(-2, 2) for _ in range(3)])
         # measurements near the predicted observation keep the weights from collapsing onto one particle
         np = np_()
         S = c['S']
         xpred = np.array(S['A']) @ np.array(c['x']) + np.array(S['B']) @ np.array(c['u']) + np.array(S['c1'])
         ypred = np.array(S['C']) @ xpred + np.array(S['D']) @ np.array(c['u']) + np.array(S['c2'])
         c['y'] = [float(v + rng.gauss(0, 1) * math.sqrt(max(c['R'][i][i], 1e-12))) for i, v in enumerate(ypred)]
-        R.pf_case(c, rng.choice([1, 2, 5, 8, 12]), rng.randint(0, 10 ** 6), kind='nls' if t % 4 else (rng.choice(['sys', 'lti']) if is_linear(S) else 'nls'))
+        R.pf_case(c, rng.choice([5, 8, 12]) if far else rng.choice([1, 2, 5, 8, 12]), rng.randint(0, 10 ** 6), kind='nls' if t % 4 else (rng.choice(['sys', 'lti']) if is_linear(S) else 'nls'))
     # ---- PF: Monte-Carlo band on random linear systems against the documented particle model
     for t in range(ctx.scale(20, 100)):
         n, m = rng.randint(1, 3), rng.randint(1, 2)
